@@ -363,6 +363,7 @@ func runC03(r *core.Run) {
 		})
 
 	interleavedReadersFor(r, []string{"sam", "samh"})
+	consumerMutatesRecords(r, []string{"sam", "samh"})
 	bigFiles(r, "sam", []int{0})
 
 	r.Bound("marked-offsets", markBounds+"; fields Qname / Seq / Qual / a Z tag, bytes '@', ':'"+core.Pick(r, "", " and '*', '=', ' ', 0x00, 0xFF")+"; '@' never first in Qname (that is a header line)")
